@@ -25,7 +25,8 @@ MANIFEST = dict(
          'dtype and length legal, a union holds exactly one option, recursively); a raising setter leaves the object unchanged; the integer, '
          'float and array-length checks are exact (accept every legal value, reject every illegal one); pick_width picks the least standard '
          'width.  The element-range part of the contract is refuted for the shipped code by a witness (known finding F-PY-ARRELEM) and proved for '
-         'the conformant variant and for all types without arrays of non-standard-width integers.  Tie: pick_width is translated and the '
+         'the conformant variant (= the shape of the fix; the scanner tells which of the two the template in /repo is, the check probes which of '
+         'the two the generated classes are, and both must agree) and for all types without arrays of non-standard-width integers.  Tie: pick_width is translated and the '
          'structure of base.j2 (which checks each setter and each assign_array branch contains, comparison operators, union bookkeeping) is '
          'scanned from /repo on every run, the proofs are re-checked against them; the extracted model and the real generated classes (real '
          'nnvg, NumPy) are run on the same operation sequences and compared on accept/raise and on the complete object state after every '
@@ -476,13 +477,16 @@ class Gen:
             return lit({'l': vals}), exp, tags
         if k == 'float':
             w = et['w']
-            pool = [0.0, 1.5, -2.25, 0.1, 1e-8, 65504.0, 1 / 3, 1e-40, 5e-324, 6.1e-5, 5.97e-8, 2049.0, 65519.9, 1e-7]
+            pool = [0.0, 1.5, -2.25, 0.1, 1e-8, 65504.0, 1 / 3, 1e-40, 5e-324, 6.1e-5, 5.97e-8, 2049.0, 1e-7]
+            if w >= 32:
+                pool += [65519.9, 1e6, FMAX[32] if w == 32 else 1e300]
             vals = [vf(r.choice(pool) * r.choice([1, -1])) for _ in range(n)]
             if not valid_only and n:
                 c = r.randrange(9)
                 j = r.randrange(n)
                 if c == 0 and w < 64:
-                    vals[j] = vf(r.choice([1e6 if w == 16 else 1e39, 65520.0 if w == 16 else 3.4028235677973366e38, -1e300]))
+                    vals[j] = vf(r.choice([1e6, 65520.0, 65519.9, next_up(65504.0), -65504.5] if w == 16 else
+                                          [1e39, 3.4028235677973366e38, next_up(FMAX[32]), -1e300]))
                     tags.add('arrelem_float')
                     exp = 'reject'
                 elif c == 1:
@@ -1003,8 +1007,16 @@ def main(chk: core.Check, replay: typing.Optional[str] = None) -> int:
         results = list(ex.map(lambda a: run_namespace(a[0][0], a[0][1], a[1], a[0][2], repo, exe, chk.tier, fixed_for.get(a[0][0])),
                               zip(specs, seeds)))
 
+    # which variant does the scanned template claim to be?  (Generated/Gen_PyObj.v arrelem_quirk_gen, through the extracted model)
+    tmpl_quirk: typing.Optional[bool] = None
+    if exe:
+        ans = core.run([exe], input='quirk\n', timeout=60).stdout.strip()
+        tmpl_quirk = {'1': True, '0': False}.get(ans)
     # probe the known finding on the real classes
     witness = next((r['witness'] for r in results if r['label'] == 'probe'), None)
+    if tmpl_quirk is not None and witness is not None and tmpl_quirk != bool(witness):
+        broken.append('the scanned template says arrelem_quirk=%s but the witness uint4[<=3] = [200, 3] %s on the generated classes'
+                      % (tmpl_quirk, 'is accepted' if witness else 'is rejected'))
     kf_live = bool(witness) and chk.is_known(FID)
     if kf_live:
         chk.report_known(FID)
@@ -1054,7 +1066,9 @@ def main(chk: core.Check, replay: typing.Optional[str] = None) -> int:
         'traces_validated_against_impl': model_ops,
         'distribution': stats,
     })
-    chk.notes.append('quirk model in use: %s (witness uint4[<=3] = [200, 3] %s)' % (quirk, 'reproduces' if witness else 'does not reproduce'))
+    chk.notes.append('quirk model in use: %s (witness uint4[<=3] = [200, 3] %s; scanned template: arrelem_quirk=%s; live theorem: %s)'
+                     % (quirk, 'reproduces' if witness else 'does not reproduce', tmpl_quirk,
+                        'C18_obj_invariant_partial + C18_array_elem_range_refuted' if quirk else 'C18_obj_invariant_strict_noquirk'))
 
     if replay:
         for r in results:
